@@ -11,6 +11,10 @@ Theorems : FinVerif/Props/C12.lean on the hand model of crr_tree_val (Model/C12.
            American >= European / payoff through the time loop, projection = complementarity, SOR fixed point solves the
            interior equations.   Props/C12d.lean (GENERATED Gen/BAWP.lean: _fcall, _fput, baw_value given S*): call with
            q <= 0 is European, exercise region = intrinsic, continuation >= European, jump at S* = -residual.
+           Props/C12e.lean (GENERATED Gen/CrrLoopR.lean = the `for` loops of crr_tree_val cut by registry/crrloops.py): every range,
+           initial value, body and flat subscript of the hand model is the generated one; the nest of generated loops on flat
+           arrays returns the hand model's root value for every step count (crr_price_is_generated_loops); no out-of-range
+           subscript, int() casts exact; put-call parity / American >= European of the generated program.
 Tie      : crr_tree_val (compiled, both parities), calculate_fd_matrix, fd_roll_backwards, black_scholes_fd, PSOR,
            black_scholes_fd_PSOR, _fcall, _fput, baw_value (S* from the same newton_secant call), FXVanillaOption AMERICAN
            (crr_tree_val_avg at t_exp) vs the Lean models at Float (compiled driver c12driver) on seeded inputs.
@@ -32,8 +36,8 @@ from floatcmp import f2b, b2f  # noqa: E402
 from parallel import driver_parallel  # noqa: E402,F401
 import exedriver  # noqa: E402
 
-GEN = ['BSF', 'BSP', 'BAWF', 'BAWP']      # BAWF / BAWP (tools/py2lean/registry/baw.py) import the Black-Scholes kernels BSF / BSP
-PROPS = ['FinVerif.Props.C12', 'FinVerif.Props.C12b', 'FinVerif.Props.C12c', 'FinVerif.Props.C12d']
+GEN = ['BSF', 'BSP', 'BAWF', 'BAWP', 'CrrLoopR']      # CrrLoopR (registry/crrloops.py): the LOOPS of crr_tree_val; BAWF / BAWP (tools/py2lean/registry/baw.py) import the Black-Scholes kernels BSF / BSP
+PROPS = ['FinVerif.Props.C12', 'FinVerif.Props.C12b', 'FinVerif.Props.C12c', 'FinVerif.Props.C12d', 'FinVerif.Props.C12e']
 DRIVERS = ['FinVerif.Driver.C12']
 
 RULE = ('seeded parameter sets: S/K in [0.3,3] (half of them in [0.7,1.4]), t in {0.1,0.25,0.5,1,2}, r in '
@@ -169,7 +173,7 @@ def bjs_q_is_carry(s, t, k, r, b, v, is_call, with_scale=False):
 
 
 def run(ctx):
-    drivers_ok = C.lean_stage(ctx, GEN, PROPS, DRIVERS)
+    drivers_ok = C.lean_stage(ctx, GEN, PROPS, DRIVERS, extra_files=['FinVerif/Lemmas/C12Loop.lean'])
     C.import_financepy()
     import numpy as np
     from financepy.models.black_scholes import BlackScholes, BlackScholesTypes as T
